@@ -479,6 +479,33 @@ func pair(c *fw.Ctx, r *runner, a, b ugo.Object) {
 				break
 			}
 		}
+		// concatenation with a string is associative over the empty string: a + s == ("" + a) + s and s + b == s + ("" + b)
+		// (however a value is turned into text, it is the same text on either side of a string)
+		if tok == token.Add && d.panic == nil && d.err == nil {
+			_, as := a.(ugo.String)
+			_, bs := b.(ugo.String)
+			if _, text := d.v.(ugo.String); as != bs && text {
+				var alt res
+				if bs {
+					pre := direct(token.Add, ugo.String(""), a)
+					if pre.err == nil && pre.panic == nil {
+						alt = direct(token.Add, pre.v, b)
+					} else {
+						alt = pre
+					}
+				} else {
+					post := direct(token.Add, ugo.String(""), b)
+					if post.err == nil && post.panic == nil {
+						alt = direct(token.Add, a, post.v)
+					} else {
+						alt = post
+					}
+				}
+				if alt.panic == nil && alt.err == nil && !uv.Same(alt.v, d.v) {
+					c.Violation(key("law", a, tok, b, "concat"), fmt.Sprintf("%s + %s = %s, but with the non-string operand first added to the empty string it is %s", uv.Repr(a), uv.Repr(b), d, alt), nil)
+				}
+			}
+		}
 		// documented arithmetic on numeric operands
 		if ka != kNone && kb != kNone && isArith(tok) && d.panic == nil {
 			want, werr := refArith(tok, a, b)
